@@ -154,7 +154,11 @@ def check_nav(step, world, res, op):
     for _ in range(r.choice((0, 1, 2, 3, 2 * n))):
         i = r.randrange(n)
         k = r.choice(NAV)
-        got = lib_nav_one(world, world.nodes[i], k)
+        try:
+            got = lib_nav_one(world, world.nodes[i], k)
+        except Exception as exc:  # noqa: BLE001  (RecursionError included: these universes are a dozen nodes deep at most)
+            raise Violation("C20", "position", step, "position:%s:raises:%s" % (k, type(exc).__name__),
+                            "after step %d %s: reading %s of node %d (%s) raised %s: %s" % (step, op, k, i, world.cls[i], type(exc).__name__, str(exc)[:200]))
         res.bump("nav_reads")
         if got != ref[i][k]:
             raise Violation("C20", "position", step, "position:%s:%s" % (k, world.cls[i] if world.cls[i] in LINK_CLASSES else "node"),
@@ -171,6 +175,9 @@ def check_reads(step, world, store, res, op):
                 got = getattr(node, k)
             except AttributeError:
                 got = MISSING
+            except Exception as exc:  # noqa: BLE001
+                raise Violation("C20", "forward", step, "forward:raises:" + type(exc).__name__,
+                                "after step %d %s: reading %r on node %d raised %s: %s" % (step, op, k, i, type(exc).__name__, str(exc)[:200]))
             want = store.expected(i, k)
             res.bump("attr_reads")
             # the very object that was stored must come back (an equal value of another type, or an
